@@ -19,10 +19,11 @@ import ast
 import copy
 
 
-# N4 is implemented but switched off: it rewrites many statements of the present sources (every single-use temporary), so the
-# constructs quoted in reports and in known_findings.json would no longer appear verbatim in the source.  Rules follow single
-# definitions through the def-use layer instead.
-ENABLE_N4 = False
+# Normal form for intermediate values: the result of a call *into the package* (a method of one of the module's classes, a module-level
+# function, a name imported from a sibling module, also wrapped in dask.delayed) is always bound to a name (N7 extracts such calls
+# from argument positions); every other temporary that is assigned once and read once, in the next statement, is substituted (N4).
+# Reports quote the canonical expression with the line number of the original statement.
+ENABLE_N4 = True
 
 
 def _names_loaded(node):
@@ -33,6 +34,16 @@ def _is_empty_list(v):
     return (isinstance(v, ast.List) and not v.elts) or (isinstance(v, ast.Call) and isinstance(v.func, ast.Name) and v.func.id == "list" and not v.args and not v.keywords)
 
 
+_MUTATORS = {"append", "extend", "insert", "update", "add", "setdefault", "sort", "fill", "pop", "remove", "clear", "resize", "put", "discard", "reverse", "itemset", "partition"}
+
+
+def _leaf(e):
+    x = e
+    while isinstance(x, (ast.Attribute, ast.Subscript, ast.Starred)):
+        x = x.value
+    return isinstance(x, (ast.Name, ast.Constant))
+
+
 def _strip_not(test):
     neg = False
     while isinstance(test, ast.UnaryOp) and isinstance(test.op, ast.Not):
@@ -41,8 +52,46 @@ def _strip_not(test):
 
 
 class _Canon:
-    def __init__(self, fn):
+    def __init__(self, fn, internal=()):
         self.fn = fn
+        self.internal = set(internal)
+        self.k = 0
+
+    def is_internal_call(self, e):
+        if not isinstance(e, ast.Call):
+            return False
+        f = e.func
+        if isinstance(f, ast.Call):  # dask.delayed(f)(...)
+            return bool(f.args) and (isinstance(f.args[0], ast.Name) and f.args[0].id in self.internal or isinstance(f.args[0], ast.Attribute) and f.args[0].attr in self.internal)
+        if isinstance(f, ast.Name):
+            return f.id in self.internal
+        if isinstance(f, ast.Attribute):
+            return f.attr in self.internal and isinstance(f.value, ast.Name)
+        return False
+
+    def n7(self, body):
+        """Calls into the package that stand in an argument position of another call are bound to a name first."""
+        out = []
+        for st in body:
+            call = None
+            if isinstance(st, (ast.Assign, ast.AugAssign, ast.Expr, ast.Return)) and isinstance(getattr(st, "value", None), ast.Call):
+                call = st.value
+            if call is not None and not isinstance(call.func, ast.Call):
+                slots = [("a", i, a) for i, a in enumerate(call.args)] + [("k", i, k.value) for i, k in enumerate(call.keywords)]
+                inner = [(kind, i, a) for kind, i, a in slots if self.is_internal_call(a)]
+                others_pure = all(self.is_internal_call(a) or _leaf(a) for kind, i, a in slots)
+                if inner and others_pure and _leaf(call.func):
+                    for kind, i, a in inner:
+                        self.k += 1
+                        t = f"_n{self.k}"
+                        out.append(ast.copy_location(ast.Assign(targets=[ast.Name(id=t, ctx=ast.Store())], value=a), st))
+                        ref = ast.copy_location(ast.Name(id=t, ctx=ast.Load()), a)
+                        if kind == "a":
+                            call.args[i] = ref
+                        else:
+                            call.keywords[i].value = ref
+            out.append(st)
+        return out
 
     # ---- helpers over the whole function ------------------------------------------------------------------------
     def count_loads(self, name, exclude=()):
@@ -63,6 +112,7 @@ class _Canon:
     def block(self, body):
         body = [self.stmt(s) for s in body]
         body = self.n3(body)
+        body = self.n7(body)
         body = self.n4a(body)
         if ENABLE_N4:
             body = self.n4(body)
@@ -162,10 +212,25 @@ class _Canon:
             st, nxt = out[i], out[i + 1]
             if isinstance(st, ast.Assign) and len(st.targets) == 1 and isinstance(st.targets[0], ast.Name) and not isinstance(nxt, (ast.FunctionDef, ast.ClassDef, ast.For, ast.While, ast.If, ast.Try, ast.With)):
                 t = st.targets[0].id
-                if self.count_stores(t) == 1 and not isinstance(st.value, (ast.Lambda, ast.Yield, ast.YieldFrom, ast.Await)):
+                if self.count_stores(t) == 1 and not isinstance(st.value, (ast.Lambda, ast.Yield, ast.YieldFrom, ast.Await)) and not self.is_internal_call(st.value) and not t.startswith("_n"):
                     uses = [n for n in ast.walk(nxt) if isinstance(n, ast.Name) and n.id == t and isinstance(n.ctx, ast.Load)]
                     inside_comp = any(isinstance(p, (ast.ListComp, ast.GeneratorExp, ast.SetComp, ast.DictComp, ast.Lambda)) and any(u is x for x in ast.walk(p) for u in uses) for p in ast.walk(nxt))
-                    if len(uses) == 1 and self.count_loads(t) == 1 and not inside_comp:
+                    # never substitute into a place that is written through: the base of a store target, the receiver of a method call
+                    written = False
+                    for p_ in ast.walk(nxt):
+                        tg_ = []
+                        if isinstance(p_, ast.Assign):
+                            tg_ = p_.targets
+                        elif isinstance(p_, (ast.AugAssign, ast.AnnAssign)):
+                            tg_ = [p_.target]
+                        elif isinstance(p_, ast.Delete):
+                            tg_ = p_.targets
+                        for tt in tg_:
+                            if any(u is x for x in ast.walk(tt) for u in uses):
+                                written = True
+                        if isinstance(p_, ast.Call) and isinstance(p_.func, ast.Attribute) and p_.func.attr in _MUTATORS and any(u is x for x in ast.walk(p_.func.value) for u in uses):
+                            written = True
+                    if len(uses) == 1 and self.count_loads(t) == 1 and not inside_comp and not written:
                         _Sub(uses[0], st.value).visit(nxt)
                         del out[i]
                         if i > 0:
@@ -187,9 +252,16 @@ class _Sub(ast.NodeTransformer):
 
 def normalise(tree):
     """Canonicalises every function of a parsed module in place and returns the tree."""
+    internal = set()
     for n in ast.walk(tree):
         if isinstance(n, (ast.FunctionDef, ast.AsyncFunctionDef)):
-            c = _Canon(n)
+            internal.add(n.name)
+        if isinstance(n, ast.ImportFrom) and n.level >= 1:
+            internal |= {(al.asname or al.name) for al in n.names}
+    internal -= {"__init__", "fit", "transform", "copy", "sum", "mean", "reshape"}  # names shared with library objects
+    for n in ast.walk(tree):
+        if isinstance(n, (ast.FunctionDef, ast.AsyncFunctionDef)):
+            c = _Canon(n, internal)
             for _ in range(2):  # the second pass sees the counts of the tree rewritten by the first
                 n.body = c.block(n.body)
     ast.fix_missing_locations(tree)
